@@ -408,3 +408,40 @@ def rule_string_formats(repo: Repo, rep: Report, rule: str) -> None:
                           f"a `type: string, format: {fmt_}` value is typed `{ty}`, which the converter writes as a JSON {'number' if ty in ('int', 'float') else 'value of another kind'}: "
                           "a conforming document (\"0012\") decodes and is re-encoded as 12 - the wire type and text change silently", rs.loc(v))
     rep.require(n >= 4, f"{rule}: only {n} entries of the string format table found (floor 4)")
+
+
+# ------------------------------------------------------------------------------------------------ field types are resolved before cattrs sees the class
+def rule_field_types_resolved(repo: Repo, rep, rule: str) -> None:
+    """cattrs' `make_dict_structure_fn` / `make_dict_unstructure_fn` resolve an annotation only when it is a string *as a whole*, and
+    then with `typing.get_type_hints(cls)` - without `include_extras`.  The generator writes a self reference inside a container as
+    `List["Node"]` (a generic alias that merely contains a ForwardRef: structuring fails with "Unsupported type: ForwardRef('Node')",
+    unstructuring leaves the nested instances raw), and one fully quoted field (`manager: "Employee | None"`) makes cattrs re-resolve
+    *all* fields, stripping the `Annotated[..., Discriminator()]` metadata of a sibling union field.  Both dataclass hook factories must
+    therefore resolve the field types themselves - `get_type_hints(cls, include_extras=True)` written back to the fields - before the
+    class is handed to cattrs."""
+    conv = repo.module("core.cattrs_converter")
+
+    def resolves(f) -> bool:
+        """calls get_type_hints(..., include_extras=True) and stores the result into the fields' `type`"""
+        gth = [c for c in ast.walk(f.node) if isinstance(c, ast.Call) and (dotted(c.func) or "").endswith("get_type_hints")
+               and any(k.arg == "include_extras" and isinstance(k.value, ast.Constant) and k.value.value is True for k in c.keywords)]
+        stores = [a for a in ast.walk(f.node) if isinstance(a, ast.Assign) and any(isinstance(t, ast.Attribute) and t.attr == "type" for t in a.targets)]
+        return bool(gth) and bool(stores)
+
+    resolvers = {q for q, f in conv.functions.items() if "." not in q and resolves(f)}
+    for name, maker in (("_make_dataclass_structure_fn", "make_dict_structure_fn"), ("_make_dataclass_unstructure_fn", "make_dict_unstructure_fn")):
+        fn = conv.functions.get(name)
+        if fn is None:
+            raise AnalysisError(f"{rule}: anchor vanished: {name}")
+        makes = [c for c in calls_in(fn.node) if (dotted(c.func) or "").split(".")[-1] == maker]
+        if not makes:
+            raise AnalysisError(f"{rule}: {name} no longer calls cattrs' {maker} (anchor)")
+        sub = f"{conv.relpath}:{name} field types resolved before `{maker}`"
+        before = [c for c in calls_in(fn.node) if c.lineno < makes[0].lineno and isinstance(c.func, ast.Name) and c.func.id in resolvers]
+        if before or resolves(fn):
+            rep.ok(rule, sub, "`get_type_hints(cls, include_extras=True)` is written back to the fields first (nested forward references and Annotated metadata survive)", fn.loc(makes[0]))
+        else:
+            rep.violation(rule, sub, f"{fn.fq}|field-types-left-to-cattrs",
+                          f"the class goes to `{maker}` with its annotations as written: `children: List['Node']` cannot be structured (Unsupported type: ForwardRef) and is left raw "
+                          "when unstructured, and a quoted self reference next to a discriminated union field makes cattrs drop that field's discriminator (first-match decoding)",
+                          fn.loc(makes[0]))
